@@ -333,6 +333,9 @@ class ReadableStream(io.RawIOBase):
 class WritableStream(io.RawIOBase):
     """File like object for writing to a variable."""
 
+    #: Data of an expedited download collected so far (written in pieces)
+    _exp_data = b""
+
     def __init__(self, sdo_client, index, subindex=0, size=None, force_segment=False):
         """
         :param canopen.sdo.SdoClient sdo_client:
@@ -382,12 +385,15 @@ class WritableStream(io.RawIOBase):
             raise RuntimeError("All expected data has already been transmitted")
         if self._exp_header is not None:
             # Expedited download
-            if len(b) < self.size:
-                # Not enough data provided
-                return 0
-            if len(b) > 4:
+            data = b.tobytes() if isinstance(b, memoryview) else bytes(b)
+            data = self._exp_data + data
+            if len(data) < self.size:
+                # Not enough data provided yet, keep it until the rest arrives
+                self._exp_data = data
+                self.pos += len(b)
+                return len(b)
+            if len(data) > 4:
                 raise AssertionError("More data received than expected")
-            data = b.tobytes() if isinstance(b, memoryview) else b
             request = self._exp_header + data.ljust(4, b"\x00")
             response = self.sdo_client.request_response(request)
             res_command, = struct.unpack_from("B", response)
